@@ -204,8 +204,9 @@ namespace cnl {
                 > std::tuple{// NOLINT(hicpp-use-nullptr,modernize-use-nullptr)
                              fixed_solution.num_significand_digits,
                              -fixed_solution.num_chars}) {
-                CNL_ASSERT(scientific_solution.num_significand_digits > 0);
-                return _impl::fill(info, scientific_solution);
+                if (scientific_solution.num_significand_digits > 0) {
+                    return _impl::fill(info, scientific_solution);
+                }
             }
 
             if (fixed_solution.num_significand_digits > 0) {
